@@ -186,3 +186,101 @@ Example C09_get_set_example :
        (opt_set (fun _ x => x + 100) (mkvrec [Some (mkvnode 0 101); None; Some (mkvnode 1 103)] 2) 1%nat (Some 8)) 1%nat
   = Some 8.
 Proof. reflexivity. Qed.
+
+(* -- meta_value_internal.py: the `value` property of MetaItem (optional_meta_value_property.__get__/__set__,
+   update_value, from_value) over the universe str | date | datetime | Decimal | bool | None | raw model, for every
+   current content of the slot (absent, or any of the nine raw kinds).  Model MetaValue.v (the isinstance tests in the
+   order of the `match` statements); tied per run by MetaValueRun.check_mcase/check_ucase/check_fcase
+   (harness/c09.py: check_meta_value).  Codec round trips are C12's, the carrier laws those of C13_from_value_exact. -- *)
+From AB Require MetaValue MetaValueProofs.
+
+(* read-back: whatever the slot held, after `item.value = v` the property reads v (a datetime.datetime as its date,
+   a raw EscapedString/Date/Bool/NumberExpr as its value, any other raw model as itself) *)
+Theorem C09_meta_value_get_set :
+  forall (D : Type) (dadd dsub dmul ddiv : D -> D -> D) (dneg dabs : D -> D) (dltz : D -> bool)
+         (num_value : list Z -> D) (num_text : D -> list Z) (str_text str_value : list Z -> list Z)
+         (date_text : MetaValue.date -> list Z) (date_value : list Z -> MetaValue.date)
+         (bool_text : bool -> list Z) (bool_value : list Z -> bool),
+  (forall s, str_value (str_text s) = s) -> (forall d, date_value (date_text d) = d) ->
+  (forall b, bool_value (bool_text b) = b) -> (forall v, num_value (num_text (dabs v)) = dabs v) ->
+  (forall v, dltz v = true -> dneg (dabs v) = v) -> (forall v, dltz v = false -> dabs v = v) ->
+  forall slot v fresh det slot',
+  MetaValue.set D dabs dltz num_text str_text date_text bool_text slot v fresh det = (slot', Ok tt) ->
+  MetaValue.get D dadd dsub dmul ddiv dneg num_value str_value date_value bool_value slot'
+  = MetaValueProofs.read_back D dadd dsub dmul ddiv dneg num_value str_value date_value bool_value v.
+Proof. exact MetaValueProofs.get_set. Qed.
+
+(* in place iff same kind: a matching (raw model, value) pair keeps the object in the slot and rewrites its
+   content only; otherwise the slot receives from_value(v): a new object / nothing / the very raw model *)
+Theorem C09_meta_value_in_place_iff :
+  forall (D : Type) (dabs : D -> D) (dltz : D -> bool) (num_text : D -> list Z) (str_text : list Z -> list Z)
+         (date_text : MetaValue.date -> list Z) (bool_text : bool -> list Z) slot v fresh det slot',
+  MetaValue.set D dabs dltz num_text str_text date_text bool_text slot v fresh det = (slot', Ok tt) ->
+  if MetaValueProofs.kinds_match D slot v
+  then exists m, slot = Some m /\
+       slot' = Some (MetaValue.RM (MetaValue.rm_id m)
+                       (MetaValue.content_of D dabs dltz num_text str_text date_text bool_text v))
+  else slot' = MetaValue.from_value D dabs dltz num_text str_text date_text bool_text fresh v /\
+       match v with
+       | MetaValue.MNone => slot' = None
+       | MetaValue.MRaw r => slot' = Some r
+       | _ => slot' = Some (MetaValue.RM fresh (MetaValue.content_of D dabs dltz num_text str_text date_text bool_text v))
+       end.
+Proof. exact MetaValueProofs.set_in_place_iff. Qed.
+
+Theorem C09_meta_value_raw_stored :
+  forall (D : Type) (dabs : D -> D) (dltz : D -> bool) (num_text : D -> list Z) (str_text : list Z -> list Z)
+         (date_text : MetaValue.date -> list Z) (bool_text : bool -> list Z) slot r fresh,
+  MetaValue.set D dabs dltz num_text str_text date_text bool_text slot (MetaValue.MRaw r) fresh true = (Some r, Ok tt).
+Proof. exact MetaValueProofs.set_raw_stores. Qed.
+
+Theorem C09_meta_value_none_clears :
+  forall (D : Type) (dabs : D -> D) (dltz : D -> bool) (num_text : D -> list Z) (str_text : list Z -> list Z)
+         (date_text : MetaValue.date -> list Z) (bool_text : bool -> list Z) slot fresh det,
+  MetaValue.set D dabs dltz num_text str_text date_text bool_text slot MetaValue.MNone fresh det = (None, Ok tt).
+Proof. exact MetaValueProofs.set_none_clears. Qed.
+
+(* the only refusal: a raw model that lives elsewhere and is not the one already in the slot; nothing changes *)
+Theorem C09_meta_value_refused :
+  forall (D : Type) (dabs : D -> D) (dltz : D -> bool) (num_text : D -> list Z) (str_text : list Z -> list Z)
+         (date_text : MetaValue.date -> list Z) (bool_text : bool -> list Z) slot v fresh det slot' e,
+  MetaValue.set D dabs dltz num_text str_text date_text bool_text slot v fresh det = (slot', Err e) ->
+  slot' = slot /\ e = ValueError /\ det = false /\
+  exists r, v = MetaValue.MRaw r /\ (forall m, slot = Some m -> MetaValue.rm_id m <> MetaValue.rm_id r).
+Proof. exact MetaValueProofs.set_refused. Qed.
+Theorem C09_meta_value_total :
+  forall (D : Type) (dabs : D -> D) (dltz : D -> bool) (num_text : D -> list Z) (str_text : list Z -> list Z)
+         (date_text : MetaValue.date -> list Z) (bool_text : bool -> list Z) slot v fresh det,
+  (match v with
+   | MetaValue.MRaw r => det = true \/ exists m, slot = Some m /\ MetaValue.rm_id m = MetaValue.rm_id r
+   | _ => True end) ->
+  exists slot', MetaValue.set D dabs dltz num_text str_text date_text bool_text slot v fresh det = (slot', Ok tt).
+Proof. exact MetaValueProofs.set_total. Qed.
+
+(* full read-back is false for datetime.datetime: it is a datetime.date for `case datetime.date()`, only its date is
+   written *)
+Theorem C09_meta_value_datetime_refuted :
+  forall (D : Type) (dadd dsub dmul ddiv : D -> D -> D) (dneg dabs : D -> D) (dltz : D -> bool)
+         (num_value : list Z -> D) (num_text : D -> list Z) (str_text str_value : list Z -> list Z)
+         (date_text : MetaValue.date -> list Z) (date_value : list Z -> MetaValue.date)
+         (bool_text : bool -> list Z) (bool_value : list Z -> bool),
+  (forall s, str_value (str_text s) = s) -> (forall d, date_value (date_text d) = d) ->
+  (forall b, bool_value (bool_text b) = b) -> (forall v, num_value (num_text (dabs v)) = dabs v) ->
+  (forall v, dltz v = true -> dneg (dabs v) = v) -> (forall v, dltz v = false -> dabs v = v) ->
+  forall d t slot fresh,
+  MetaValue.get D dadd dsub dmul ddiv dneg num_value str_value date_value bool_value
+    (fst (MetaValue.set D dabs dltz num_text str_text date_text bool_text slot (MetaValue.MDateTime d t) fresh true))
+  <> MetaValue.MDateTime d t.
+Proof. exact MetaValueProofs.get_set_datetime_refuted. Qed.
+
+(* non-vacuity (carrier Z, identity codecs): a Bool slot assigned a bool keeps its object 7; assigned a string it
+   gets the new object 99 *)
+Example C09_meta_value_example :
+  let set := MetaValue.set Z Z.abs (fun z => Z.ltb z 0) (fun z => [z]) (fun s => s) (fun d => [fst (fst d)]) (fun b => [if b then 1 else 0]) in
+  set (Some (MetaValue.RM 7 (MetaValue.RBool [0]))) (MetaValue.MBool true) 99 true
+    = (Some (MetaValue.RM 7 (MetaValue.RBool [1])), Ok tt) /\
+  set (Some (MetaValue.RM 7 (MetaValue.RBool [0]))) (MetaValue.MStr [5]) 99 true
+    = (Some (MetaValue.RM 99 (MetaValue.RString [5])), Ok tt) /\
+  set (Some (MetaValue.RM 7 (MetaValue.RBool [0]))) (MetaValue.MRaw (MetaValue.RM 8 (MetaValue.RTag [3]))) 99 false
+    = (Some (MetaValue.RM 7 (MetaValue.RBool [0])), Err ValueError).
+Proof. repeat split. Qed.
